@@ -1,17 +1,19 @@
-import ClientGoVerif.Proofs.BatchMuxIds
+import ClientGoVerif.Proofs.BatchMuxOwn
 /-!
   C18 — batched RPC multiplexing returns each caller its own response, exactly once.
 
   All theorems quantify over the number of connections, the concurrency limit, the number of forwarded hosts and over
   ALL sequences of steps of the table protocol `CGV.BatchMux.step` (submit, fetch, builder reset, getClientAndSend,
-  received responses with arbitrary ids and payloads, stream failures, cancellation, time-out, wake-up, close, …).
-  The model is tied to /repo by the differential of `./check C18` (harness/c18).
+  received responses with arbitrary — unknown, duplicate — ids and payloads, stream failures with and without epoch-CAS
+  win, cancellation, time-out, wake-up, close, …).  They are consequences of one invariant over reachable states
+  (`reach_inv`: accounting `InvF`, ids/entries `InvB`, epochs/generations `InvG`, id history `InvL`), proved preserved
+  by every step.  The model is tied to /repo by the differential of `./check C18` (harness/c18).
 -/
 namespace CGV.Props.C18
 open CGV.BatchMux
 
 /-- every state reachable from an initial state -/
-def reach (n limit nfwd : Nat) (ops : List Op) : State := run (init n limit nfwd) ops
+abbrev reach (n limit nfwd : Nat) (ops : List Op) : State := run (init n limit nfwd) ops
 
 /-- Request ids are allocated strictly increasing (`allocLog` is newest first), are positive, never exceed the
     allocator, hence are never reused; and the ids that are built or in flight at any moment are pairwise distinct, so
@@ -20,15 +22,25 @@ theorem ids_unique_monotone (n limit nfwd : Nat) (ops : List Op) :
     let s := reach n limit nfwd ops
     (s.allocLog.map (·.1)).Pairwise (· > ·) ∧ (s.allocLog.map (·.1)).Nodup ∧
     (∀ p ∈ s.allocLog, 0 < p.1 ∧ p.1 ≤ s.idAlloc) ∧ (ids s).Nodup ∧ (∀ id ∈ ids s, id ≤ s.idAlloc) := by
-  have hL := (InvL.init n limit nfwd).run ops
-  have hF := (InvF.init n limit nfwd).run ops
+  obtain ⟨hF, _, _, hL⟩ := reach_inv n limit nfwd ops
   exact ⟨hL.mono, hL.mono.imp (fun h => Nat.ne_of_gt h), hL.le, hF.1.idnodup, hF.1.idle⟩
+
+/-- Every pending entry is in exactly one place (submission channel, priority queue, or in-flight table — never two),
+    and every in-flight slot belongs to a live stream (connection, forwarded host) of its connection. -/
+theorem pending_entry_in_one_place (n limit nfwd : Nat) (ops : List Op) :
+    let s := reach n limit nfwd ops
+    (s.ch ++ s.heap ++ s.table.map (·.h)).Nodup ∧
+    ∀ sl ∈ s.table, (findStream s.streams sl.cid sl.fwd).isSome := by
+  obtain ⟨hF, _, hG, _⟩ := reach_inv n limit nfwd ops
+  refine ⟨?_, hG.live⟩
+  have := hF.1.nodup
+  simpa [locs, hF.2, reach] using this
 
 /-- Each entry's completion channel is written or closed at most once (`ncomp` counts `res <- resp` and `close(res)`),
     and each caller returns at most once. -/
 theorem at_most_one_completion (n limit nfwd : Nat) (ops : List Op) (h : Nat) (e : Entry)
     (he : (reach n limit nfwd ops).entries[h]? = some e) : e.ncomp ≤ 1 ∧ e.nret ≤ 1 := by
-  have ok := ((InvF.init n limit nfwd).run ops).1.eok h e he
+  have ok := (reach_inv n limit nfwd ops).1.1.eok h e he
   constructor
   · by_cases hc : e.chan = .fresh
     · rw [(ok.fresh0 hc).1]; exact Nat.zero_le _
@@ -37,57 +49,217 @@ theorem at_most_one_completion (n limit nfwd : Nat) (ops : List Op) (h : Nat) (e
     · rw [ok.ret0 hr]; exact Nat.zero_le _
     · rw [ok.ret1 hr]; exact Nat.le_refl _
 
-/-- PROVED PART of `own_response_only`: a payload a caller returns (and a payload buffered in its channel) is the
-    payload that a receive step put into THIS entry's channel (`got`), recorded together with the id it arrived under;
-    an entry with a fresh channel has received nothing. -/
-theorem own_response_only_partial (n limit nfwd : Nat) (ops : List Op) (h : Nat) (e : Entry)
+/-- FULL `own_response_only`.  (1) What a caller returns, and what is buffered in its channel, is the payload a receive
+    step put into THIS entry's channel (`got`); a fresh channel has received nothing.  (2) That payload arrived in a
+    response carrying exactly the request id this entry was sent with, (3) it was really received, and (4) no other
+    entry was ever sent with that id — so a caller never gets another call's response. -/
+theorem own_response_only (n limit nfwd : Nat) (ops : List Op) (h : Nat) (e : Entry)
     (he : (reach n limit nfwd ops).entries[h]? = some e) :
     (∀ p, e.ret = some (.resp p) → ∃ id, e.got = some (id, p)) ∧
     (∀ p, e.chan = .full p → ∃ id, e.got = some (id, p)) ∧
-    (e.chan = .fresh → e.got = none) := by
-  have ok := ((InvF.init n limit nfwd).run ops).1.eok h e he
-  exact ⟨ok.retp, ok.full, fun hc => (ok.fresh0 hc).2⟩
+    (e.chan = .fresh → e.got = none) ∧
+    (∀ id p, e.got = some (id, p) →
+      e.reqId = id ∧ 0 < id ∧ (id, p) ∈ (reach n limit nfwd ops).respLog ∧
+      ∀ (h' : Nat) (e' : Entry), (reach n limit nfwd ops).entries[h']? = some e' → e'.reqId = id → h' = h) := by
+  obtain ⟨hF, hB, _, _⟩ := reach_inv n limit nfwd ops
+  have ok := hF.1.eok h e he
+  refine ⟨ok.retp, ok.full, fun hc => (ok.fresh0 hc).2, ?_⟩
+  intro id p hg
+  obtain ⟨h1, h2, h3⟩ := hB.got_ok h e id p he hg
+  refine ⟨h1, h2, h3, ?_⟩
+  intro h' e' he' hr
+  exact (hB.req_inj h h' e e' he he' (h1.trans hr.symm) (by omega)).symm
 
-/-- FULL statement of `own_response_only` (NOT proved in Lean; validated by the differential and by the `audit`/`bb`
-    property ops on the real code): the response delivered to an entry arrived under the id the entry was sent with,
-    was really received, and no other entry was ever sent with that id. -/
-def OwnResponseOnly : Prop :=
-  ∀ (n limit nfwd : Nat) (ops : List Op) (h : Nat) (e : Entry) (id p : Nat),
-    (reach n limit nfwd ops).entries[h]? = some e → e.got = some (id, p) →
-      e.reqId = id ∧ (id, p) ∈ (reach n limit nfwd ops).respLog ∧
-      ∀ (h' : Nat) (e' : Entry), (reach n limit nfwd ops).entries[h']? = some e' → e'.reqId = id → h' = h
+/-- What went on the wire under an id is the payload of the one entry that was sent with that id. -/
+theorem wire_carries_own_payload (n limit nfwd : Nat) (ops : List Op) (id q : Nat)
+    (hq : (id, q) ∈ (reach n limit nfwd ops).wireLog) :
+    0 < id ∧ ∃ (h : Nat) (e : Entry), (reach n limit nfwd ops).entries[h]? = some e ∧ e.reqId = id ∧ e.payload = q ∧
+      ∀ (h' : Nat) (e' : Entry), (reach n limit nfwd ops).entries[h']? = some e' → e'.reqId = id → h' = h := by
+  obtain ⟨_, hB, _, _⟩ := reach_inv n limit nfwd ops
+  obtain ⟨hp, h, e, he, h1, h2⟩ := hB.wire_ok id q hq
+  refine ⟨hp, h, e, he, h1, h2, ?_⟩
+  intro h' e' he' hr
+  exact (hB.req_inj h h' e e' he he' (h1.trans hr.symm) (by omega)).symm
 
-/-- PROVED PART of `fail_then_recreate`: when the recv loop of stream (cid, fwd) wins the epoch CAS of
-    recreateStreamingClient, every entry pending on that stream is completed with the stream error and none of them
-    is left in the table when the stream has been re-created. -/
-theorem fail_then_recreate_partial (n limit nfwd : Nat) (ops : List Op) (cid fwd : Nat)
-    (hc : (reach n limit nfwd ops).closed = false) (hw : killWins (reach n limit nfwd ops) cid fwd = true) :
-    (∀ sl ∈ (reach n limit nfwd ops).table, sl.cid = cid → sl.fwd = fwd →
-        ∃ e, (kill (reach n limit nfwd ops) cid fwd).entries[sl.h]? = some e ∧ e.chan = .closed .stream) ∧
-    (∀ sl ∈ (kill (reach n limit nfwd ops) cid fwd).table, ¬ (sl.cid = cid ∧ sl.fwd = fwd)) :=
-  kill_winner ((InvF.init n limit nfwd).run ops).1 cid fwd hc hw
+/-- the server answers an id it has received with `f` of the payload it received under that id (it may also send
+    anything under ids it never received) -/
+def AnswersById (f : Nat → Nat) (s : State) : Prop :=
+  ∀ id p q, (id, p) ∈ s.respLog → (id, q) ∈ s.wireLog → p = f q
+
+/-- End to end: against a server that answers by id, a caller whose request went on the wire and who returns a response
+    returns `f` of ITS OWN payload. -/
+theorem answer_is_for_own_request (f : Nat → Nat) (n limit nfwd : Nat) (ops : List Op) (h : Nat) (e : Entry) (p : Nat)
+    (hs : AnswersById f (reach n limit nfwd ops))
+    (he : (reach n limit nfwd ops).entries[h]? = some e)
+    (hw : (e.reqId, e.payload) ∈ (reach n limit nfwd ops).wireLog)
+    (hr : e.ret = some (.resp p)) : p = f e.payload := by
+  obtain ⟨h1, _, _, h4⟩ := own_response_only n limit nfwd ops h e he
+  obtain ⟨id, hg⟩ := h1 p hr
+  obtain ⟨hid, _, hresp, _⟩ := h4 id p hg
+  exact hs id p e.payload hresp (hid ▸ hw)
 
 def demoOps : List Op := [.submit 1 0 0, .submit 2 0 1, .fetch 8, .flush]
 
-/-- non-vacuity: a reachable open state in which stream (0,1) wins the CAS and has a pending entry -/
-example : (reach 1 100 1 demoOps).closed = false ∧ killWins (reach 1 100 1 demoOps) 0 1 = true ∧
-    (reach 1 100 1 demoOps).table.any (fun sl => sl.cid = 0 ∧ sl.fwd = 1) = true := by decide
+/-- non-vacuity: an echo server (`f q = 2q+1`) answers both requests, out of order and on the "wrong" stream, plus junk
+    for an unknown id; entry 0 went on the wire and returned a response -/
+example :
+    let s := reach 1 100 1 (demoOps ++ [.recv 0 0 [(1, 3), (77, 0)], .recv 0 1 [(2, 5), (2, 5)], .wake 0, .wake 1])
+    (∀ r ∈ s.respLog, ∀ w ∈ s.wireLog, r.1 = w.1 → r.2 = 2 * w.2 + 1) ∧
+    (s.entries.map (·.ret)) = [some (.resp 3), some (.resp 5)] ∧
+    (s.entries.map (fun e => decide ((e.reqId, e.payload) ∈ s.wireLog))) = [true, true] := by decide
 
-/-- FULL statement of `fail_then_recreate`: no entry of an old stream generation survives a re-creation, i.e. every
-    in-flight slot was sent on the current generation of its stream. -/
-def FailThenRecreate : Prop :=
-  ∀ (n limit nfwd : Nat) (ops : List Op), ∀ sl ∈ (reach n limit nfwd ops).table,
-    (findStream (reach n limit nfwd ops).streams sl.cid sl.fwd).map (·.gen) = some sl.gen
+/-- A response for a canceled / timed-out entry is dropped: the entry is untouched (its caller has already returned),
+    the slot is retired. -/
+theorem late_response_dropped (n limit nfwd : Nat) (ops : List Op) (cid : Nat) (r : Nat × Nat) (sl : Slot)
+    (hf : findSlot (reach n limit nfwd ops).table cid r.1 = some sl)
+    (hc : isCanceled (reach n limit nfwd ops).entries sl.h = true) :
+    (recv1 cid (reach n limit nfwd ops) r).entries = (reach n limit nfwd ops).entries ∧
+    findSlot (recv1 cid (reach n limit nfwd ops) r).table cid r.1 = none ∧
+    (∃ e, (reach n limit nfwd ops).entries[sl.h]? = some e ∧ e.canceled = true ∧ e.ret ≠ none ∧ e.chan = .fresh) := by
+  obtain ⟨hF, _, _, _⟩ := reach_inv n limit nfwd ops
+  obtain ⟨hm, _, _⟩ := findSlot_spec hf
+  refine ⟨?_, ?_, ?_⟩
+  · unfold recv1; simp only [hf, hc, if_true]
+  · exact recv1_table_none _ _ _
+  · obtain ⟨e, he, hcc⟩ := isCanceled_spec hc
+    have hloc : sl.h ∈ locs (reach n limit nfwd ops) := by
+      simp only [locs, List.mem_append, List.mem_map]; exact Or.inr ⟨sl, hm, rfl⟩
+    obtain ⟨e', he', hfr⟩ := hF.1.fresh sl.h hloc
+    rw [he] at he'; injection he' with he'; subst he'
+    exact ⟨e, he, hcc, (hF.1.eok _ _ he).canc hcc, hfr⟩
 
-/-- The full statement is FALSE for the model of the code that exists: a stream whose recv loop loses the epoch CAS
-    (its local epoch is stale because a sibling stream of the same connection was re-created earlier) is re-created
-    WITHOUT failing its pending entries.  Counterexample: one direct and one forwarded request in flight, the direct
-    stream fails (epoch 0→1, only direct entries are failed), then the forwarded stream fails: the forwarded entry
-    stays in `batched` on a dead stream.  The differential reproduces exactly this on the real code (fixed corpus case 1). -/
-theorem fail_then_recreate_full_refuted : ¬ FailThenRecreate := by
+/-- non-vacuity of `late_response_dropped` -/
+example :
+    let s := reach 1 100 0 [.submit 1 0 0, .fetch 8, .flush, .cancel 0]
+    (findSlot s.table 0 1).isSome ∧ (s.table.all fun sl => isCanceled s.entries sl.h) = true := by decide
+
+/-- A response under an unknown id (never sent, already answered, already failed) only counts as outdated; and after a
+    response for an id has been processed, a second response for the same id is such an unknown id. -/
+theorem unknown_and_duplicate_ids_ignored (s : State) (cid : Nat) (r : Nat × Nat) :
+    (findSlot s.table cid r.1 = none →
+      (recv1 cid s r).entries = s.entries ∧ (recv1 cid s r).table = s.table ∧ (recv1 cid s r).outdated = s.outdated + 1) ∧
+    findSlot (recv1 cid s r).table cid r.1 = none ∧
+    (recv1 cid (recv1 cid s r) r).entries = (recv1 cid s r).entries ∧
+    (recv1 cid (recv1 cid s r) r).outdated = (recv1 cid s r).outdated + 1 := by
+  have hnone := recv1_table_none s cid r
+  refine ⟨?_, hnone, ?_, ?_⟩
+  · intro h; rw [recv1_none h]; exact ⟨rfl, rfl, rfl⟩
+  · rw [recv1_none hnone]
+  · rw [recv1_none hnone]
+
+/-- FULL `fail_then_recreate` for a stream without a re-created sibling: in every reachable open state, when stream
+    (cid, fwd) breaks and no sibling stream of the same connection has won the epoch CAS since this stream was created or
+    last re-created (`sib = false`), the break wins the CAS, EVERY entry pending on that stream is failed with the stream
+    error EXACTLY ONCE, and none of them is left in the table when the stream has been re-created.  This is the
+    statement the seeded change c18-2 (dropped `*epoch++`) violates. -/
+theorem break_fails_stream (n limit nfwd : Nat) (ops : List Op) (cid fwd : Nat) (st : Stream)
+    (hc : (reach n limit nfwd ops).closed = false)
+    (hst : findStream (reach n limit nfwd ops).streams cid fwd = some st) (hs : st.sib = false) :
+    killWins (reach n limit nfwd ops) cid fwd = true ∧
+    (∀ sl ∈ (reach n limit nfwd ops).table, sl.cid = cid → sl.fwd = fwd →
+        ∃ e, (kill (reach n limit nfwd ops) cid fwd).entries[sl.h]? = some e ∧ e.chan = .closed .stream ∧ e.ncomp = 1) ∧
+    (∀ sl ∈ (kill (reach n limit nfwd ops) cid fwd).table, ¬ (sl.cid = cid ∧ sl.fwd = fwd)) := by
+  obtain ⟨hF, _, hG, _⟩ := reach_inv n limit nfwd ops
+  have hw := hG.wins hst hs
+  obtain ⟨h1, h2⟩ := kill_winner hF.1 cid fwd hc hw
+  refine ⟨hw, ?_, h2⟩
+  intro sl hm a b
+  obtain ⟨e, he, hch⟩ := h1 sl hm a b
+  have hF' : InvF (step (reach n limit nfwd ops) (.kill cid fwd)) := hF.step _
+  have ok := hF'.1.eok sl.h e he
+  exact ⟨e, he, hch, ok.used1 (by rw [hch]; simp)⟩
+
+/-- non-vacuity: the SAME stream breaks a second time with a fresh pending entry and still has `sib = false` -/
+example :
+    let s := reach 1 100 0 [.submit 1 0 0, .fetch 8, .flush, .kill 0 0, .submit 2 0 0, .fetch 8, .flush]
+    s.closed = false ∧ (findStream s.streams 0 0).map (·.sib) = some false ∧ s.table.length = 1 := by decide
+
+/-- With a single stream per connection (no forwarded hosts) a break ALWAYS wins the CAS, at the first, second, …
+    break alike: no stream is ever marked as having a re-created sibling and the loser branch is never taken. -/
+theorem single_stream_never_loses (n limit : Nat) (ops : List Op) :
+    (reach n limit 0 ops).loserSeen = false ∧ ∀ st ∈ (reach n limit 0 ops).streams, st.sib = false := by
+  obtain ⟨_, _, hG, _⟩ := reach_inv n limit 0 ops
+  have h0 : (run (init n limit 0) ops).nfwd = 0 := run_nfwd ops _
+  refine ⟨?_, hG.nosib h0⟩
+  cases hl : (run (init n limit 0) ops).loserSeen
+  · rfl
+  · have := hG.loser hl; rw [h0] at this; exact absurd this (Nat.lt_irrefl 0)
+
+/-- "no entry of an old stream generation survives a re-creation": every in-flight slot was sent on the current
+    generation of its stream -/
+def OnCurrentGeneration (s : State) : Prop :=
+  ∀ sl ∈ s.table, (findStream s.streams sl.cid sl.fwd).map (·.gen) = some sl.gen
+
+/-- FULL `fail_then_recreate`: as long as no recv loop has taken the "another stream already handles this epoch" branch
+    (`loserSeen = false`), no entry of an old stream generation survives a re-creation. -/
+theorem fail_then_recreate (n limit nfwd : Nat) (ops : List Op)
+    (h : (reach n limit nfwd ops).loserSeen = false) : OnCurrentGeneration (reach n limit nfwd ops) :=
+  (reach_inv n limit nfwd ops).2.2.1.gen h
+
+/-- … and with one stream per connection (no forwarding) that is unconditional: however often the stream breaks, no
+    entry of an old generation survives. -/
+theorem fail_then_recreate_single_stream (n limit : Nat) (ops : List Op) : OnCurrentGeneration (reach n limit 0 ops) :=
+  fail_then_recreate n limit 0 ops (single_stream_never_loses n limit ops).1
+
+/-- non-vacuity: three breaks of the only stream, each with a fresh pending entry, then one more in flight -/
+example :
+    let s := reach 1 100 0 [.submit 1 0 0, .fetch 8, .flush, .kill 0 0, .submit 2 0 0, .fetch 8, .flush, .kill 0 0,
+                            .submit 3 0 0, .fetch 8, .flush, .kill 0 0, .submit 4 0 0, .fetch 8, .flush]
+    (s.table.map (·.gen)) = [3] ∧ (s.streams.map (·.gen)) = [3] ∧ (s.entries.map (·.ncomp)) = [1, 1, 1, 0] := by decide
+
+/-- THE SIBLING-STALE-EPOCH OBSERVATION, as a lemma (this is what justifies the exception in the harness oracle
+    `pending-entry-survives-recreate`).  In a reachable open state, if the break of stream (cid, fwd) does NOT win the
+    epoch CAS then (1) a sibling stream of the same connection has won the CAS since this stream was created / last
+    re-created (`sib = true`), which requires forwarding (`nfwd > 0`); (2) the break changes neither the table nor any
+    entry: the survivors are exactly the entries pending on that stream, all of them, un-failed; (3) afterwards the
+    stream is in sync again (`sib = false`), so its NEXT break fails its entries (`break_fails_stream`). -/
+theorem stale_epoch_survivors (n limit nfwd : Nat) (ops : List Op) (cid fwd : Nat) (st : Stream)
+    (hc : (reach n limit nfwd ops).closed = false)
+    (hst : findStream (reach n limit nfwd ops).streams cid fwd = some st)
+    (hl : killWins (reach n limit nfwd ops) cid fwd = false) :
+    st.sib = true ∧ 0 < nfwd ∧
+    (kill (reach n limit nfwd ops) cid fwd).table = (reach n limit nfwd ops).table ∧
+    (kill (reach n limit nfwd ops) cid fwd).entries = (reach n limit nfwd ops).entries ∧
+    (findStream (kill (reach n limit nfwd ops) cid fwd).streams cid fwd).map (·.sib) = some false := by
+  obtain ⟨_, _, hG, _⟩ := reach_inv n limit nfwd ops
+  obtain ⟨hm, _, _⟩ := findStream_spec hst
+  have hsib : st.sib = true := by
+    cases hs : st.sib
+    · rw [hG.wins hst hs] at hl; cases hl
+    · rfl
+  have hn : 0 < (run (init n limit nfwd) ops).nfwd := ((hG.lep st hm).2 hsib).2
+  rw [run_nfwd] at hn
+  obtain ⟨h1, h2⟩ := kill_loser_unchanged _ cid fwd hl
+  refine ⟨hsib, hn, h1, h2, ?_⟩
+  have hG' := hG.step (.kill cid fwd)
+  -- after the break the stream exists and its flag is clear
+  unfold killWins at hl
+  rw [hst] at hl
+  have hne : ¬ st.lep = clientEpoch (run (init n limit nfwd) ops).clients cid := by simpa using hl
+  unfold kill
+  simp only [hc, Bool.false_eq_true, if_false, hst, hne]
+  rw [findStream_map]
+  · rw [hst]
+    obtain ⟨_, a, b⟩ := findStream_spec hst
+    simp [a, b]
+  · intro x; split <;> exact ⟨rfl, rfl⟩
+
+/-- non-vacuity: the direct stream is re-created, then the forwarded stream breaks with a pending entry -/
+example :
+    let s := reach 1 100 1 (demoOps ++ [.kill 0 0])
+    s.closed = false ∧ killWins s 0 1 = false ∧ (findStream s.streams 0 1).isSome ∧ s.table.length = 1 := by decide
+
+/-- The UNCONDITIONAL statement (for every reachable state, with forwarding) is false for the model of the code that
+    exists — exactly the case described by `stale_epoch_survivors`: one direct and one forwarded request in flight, the
+    direct stream breaks (epoch 0→1, only direct entries are failed), then the forwarded stream breaks: its entry stays
+    in `batched` on a dead stream.  Reproduced on the real code by the differential (fixed corpus case 1); the callers
+    return at their own time-out, so the property text is not violated — reported as an observation. -/
+theorem fail_then_recreate_unconditional_refuted :
+    ¬ (∀ (n limit nfwd : Nat) (ops : List Op), OnCurrentGeneration (reach n limit nfwd ops)) := by
   intro h
   have := h 1 100 1 (demoOps ++ [.kill 0 0, .kill 0 1])
   revert this
+  unfold OnCurrentGeneration
   decide
 
 /-- No entry is silently dropped: at any time every submitted entry has returned to its caller, or has a completion
@@ -97,7 +269,7 @@ theorem every_submitted_completes_or_pending (n limit nfwd : Nat) (ops : List Op
     let s := reach n limit nfwd ops
     (∀ (h : Nat) (e : Entry), s.entries[h]? = some e → e.ret ≠ none ∨ chanDone e ∨ h ∈ s.ch ++ s.heap ++ s.table.map (·.h)) ∧
     (s.closed = true → ∀ (h : Nat) (e : Entry), s.entries[h]? = some e → e.ret ≠ none) := by
-  have hF := (InvF.init n limit nfwd).run ops
+  have hF := (reach_inv n limit nfwd ops).1
   refine ⟨?_, hF.1.closed_ret⟩
   intro h e he
   rcases hF.1.nodrop h e he with h1 | h1 | h1
